@@ -327,6 +327,7 @@ func c10Random(c *fw.Ctx, r *rand.Rand, id string) {
 		go func() { wg.Wait(); close(done) }()
 		if !waitOrTimeout(done, 60*time.Second) {
 			c.Violate(fw.Violation{Key: "R7:blocked", What: "a future operation did not return within 60 s", Input: c10HistoryText(body, ops), Detail: fw.GoroutineDump()})
+			c.Runaway()
 			w.openGate()
 			return
 		}
